@@ -125,6 +125,8 @@ type AWorld struct {
 	rtPending []*pendingHTTP
 	rtMode    string // deliver | refuse | stall | 500
 	rtMaster  *Agent
+	stepA     atomic.Int64 // copy of step readable from other goroutines
+	baseAt    map[int]map[int]string
 	maxQ      map[string]int
 	progress  int
 	schedHash uint64
@@ -146,6 +148,7 @@ func inAgentBubble(r *Run, f func(w *AWorld)) {
 		w.nw.Auto = true
 		simnet.Cur = w.nw
 		w.ex = simexec.NewWorld()
+		w.ex.OnStart = func(p *simexec.Proc) { p.Step = int(w.stepA.Load()) }
 		simexec.Cur = w.ex
 		simsignal.Reset()
 		w.sched = simrt.NewSched()
@@ -469,6 +472,13 @@ func (w *AWorld) observe() {
 		}
 	}
 	for _, a := range w.agents {
+		if w.baseAt == nil {
+			w.baseAt = map[int]map[int]string{}
+		}
+		if w.baseAt[a.idx] == nil {
+			w.baseAt[a.idx] = map[int]string{}
+		}
+		w.baseAt[a.idx][w.step] = a.st.dir.BaseDir // configuration in force after this step (in-package view)
 		q := map[string]int{"auth": len(a.st.authenticateChan), "update": len(a.st.updateChan), "add": len(a.st.addChan), "remove": len(a.st.removeChan), "notify": len(a.st.hooks.Notify)}
 		for k, v := range q {
 			if v > w.maxQ[k] {
@@ -560,7 +570,7 @@ func (w *AWorld) runLoop(o loopOpts) {
 			}
 			x -= weights[i]
 		}
-		w.step++
+		w.step++; w.stepA.Store(int64(w.step))
 		w.r.Steps++
 		if cat == 2 {
 			d := o.clockMenu[w.r.Choose("clock-step", len(o.clockMenu))]
@@ -589,7 +599,8 @@ func (w *AWorld) drain(extra func() bool) string {
 		// start remaining client calls first (a client whose previous call just returned)
 		started := false
 		for _, a := range w.clientActions() {
-			w.step++
+			w.step++; w.stepA.Store(int64(w.step))
+			w.r.Steps++
 			w.r.Logf("step %d (drain): %s", w.step, a.desc)
 			a.do()
 			synctest.Wait()
@@ -603,7 +614,8 @@ func (w *AWorld) drain(extra func() bool) string {
 				break
 			}
 			p := rs[guard%len(rs)]
-			w.step++
+			w.step++; w.stepA.Store(int64(w.step))
+			w.r.Steps++
 			pb := w.sched.Picks
 			w.sched.Release(p, simrt.Perm(p.N, w.r.Choose))
 			synctest.Wait()
@@ -708,4 +720,14 @@ func blockedRepoGoroutines() string {
 	}
 	sort.Strings(out)
 	return strings.Join(out, "\n")
+}
+
+// baseOf returns the base directory agent idx served from after the given step.
+func (w *AWorld) baseOf(idx, step int) string {
+	for s := step; s >= 0; s-- {
+		if b, ok := w.baseAt[idx][s]; ok {
+			return b
+		}
+	}
+	return w.agents[idx].cfg.BaseDir
 }
